@@ -1,5 +1,6 @@
 import DroopProofs.QpqLow
 import DroopProofs.QpqSum
+import DroopProofs.QpqFig
 import DroopProofs.CaseInit
 import Props.C01
 import Props.Driver
@@ -102,6 +103,19 @@ theorem qpq_decision (p g : Nat) (q : QSt Int) (h : (qpqBody (guardedArith p g) 
         ∧ ∀ d ∈ (qR5 (guardedArith p g) q).hopeful, qQuot (guardedArith p g) c + 2 ≤ qQuot (guardedArith p g) d + 2 * geps g) := by
   rw [qpqBody_eq] at h ⊢
   exact qpq_round_decision p g (qQ1 _ q) (qR5 _ q) (qR5_stsig _ q).2 h
+
+/-- **C04 for QPQ**: the quota every decision is taken on is the prescribed one — the ballots standing with a candidate, divided by
+    one more than the seats less the contributions of the exhausted ballots (Woodall's `va / (1 + s − tx)`), in the rule's arithmetic;
+    and each hopeful candidate's quotient is its ballots over one plus their contributions.  Who is then elected: `qpq_decision`. -/
+theorem qpq_quota_prescribed (p g : Nat) (q : QSt Int) (hwf : q.s.WF) :
+    (qR5 (guardedArith p g) q).quota
+        = (guardedArith p g).divV (activeMg (guardedArith p g) (qR2 (guardedArith p g) q).ballots)
+            ((guardedArith p g).sub ((guardedArith p g).ofInt (1 + (qR2 (guardedArith p g) q).seats)) (exhWg (qR2 (guardedArith p g) q).ballots))
+    ∧ ∀ c ∈ (qR5 (guardedArith p g) q).hopeful,
+        c.vote = topMg (guardedArith p g) (qR2 (guardedArith p g) q).ballots c.cid
+        ∧ c.tc = topWg (qR2 (guardedArith p g) q).ballots c.cid
+        ∧ c.quotient = some ((guardedArith p g).divV c.vote ((guardedArith p g).add (guardedArith p g).one c.tc)) :=
+  ⟨qR5_quota_gen _ (guarded_lawful p g) q, fun c hc => qR5_figures_gen _ (guarded_lawful p g) q hwf c hc⟩
 
 /-- with no guard digits "within the tolerance" is "exactly": the excluded candidate has the lowest stored quotient -/
 theorem geps_zero : geps 0 = 1 := by decide
